@@ -370,6 +370,27 @@ func convertFacts(s *src, f *facts) {
 			idOwn = idOwn && dec
 		}
 		f.b("pxClosureIdPerInvocation", idOwn && stubOwn, s.pos(proxy))
+		// the proxy's first statement is a deferred function that recovers EVERY panic of the invocation (a bad
+		// closure id, a failing stub) and reports it to the link with an unconditional setErr
+		rec := false
+		if proxy != nil && len(proxy.Body.List) > 0 {
+			if d, ok := proxy.Body.List[0].(*ast.DeferStmt); ok {
+				if dl, ok := d.Call.Fun.(*ast.FuncLit); ok {
+					for _, i := range allShallow[*ast.IfStmt](dl, nil) {
+						if strings.Contains(s.str(i.Init), "recover()") && s.str(i.Cond) == "e != nil" && directStmt(dl.Body, i) {
+							for _, st := range i.Body.List {
+								if e, ok := st.(*ast.ExprStmt); ok {
+									if c, ok := e.X.(*ast.CallExpr); ok && s.str(c.Fun) == "setErr" {
+										rec = true
+									}
+								}
+							}
+						}
+					}
+				}
+			}
+		}
+		f.b("pxRecoverReports", rec, s.pos(proxy))
 	}
 	cc := s.funcDecl("", "createClosure")
 	var wrapper *ast.FuncLit
